@@ -15,7 +15,7 @@ pub fn gen_c15(rng: &mut Rng, run_seed: u64, miri: bool) -> Program {
     prog.pool_mode = *rng.pick(&[PoolMode::Warm, PoolMode::Fresh, PoolMode::Eager]);
     let healthy = prog.pool;
     prog.n_obj = 1 + healthy;
-    let variant = rng.below(10);
+    let variant = rng.below(11);
     let mut t0 = vec![];
     // sometimes some ordinary work on the victim first
     for _ in 0..rng.below(3) { let id = prog.add_op(0, Kind::Desync, Disp::None, vec![Step::Touch]); t0.push(TAct::Op(id)); }
@@ -23,7 +23,7 @@ pub fn gen_c15(rng: &mut Rng, run_seed: u64, miri: bool) -> Program {
     // sometimes a wake-up lands while the panicking body is executing: the future wakes itself without suspending, or an earlier
     // future of the same object left a waker behind that fires during the panicking job
     let wake_kind = rng.below(3);
-    if wake_kind == 2 && !matches!(variant, 2 | 3 | 8) { let id = prog.add_op(0, Kind::FutDesync, Disp::Detach, vec![Step::Touch, Step::StashWaker, Step::Touch]); t0.push(TAct::Op(id)); }
+    if wake_kind == 2 && !matches!(variant, 2 | 3 | 8 | 10) { let id = prog.add_op(0, Kind::FutDesync, Disp::Detach, vec![Step::Touch, Step::StashWaker, Step::Touch]); t0.push(TAct::Op(id)); }
     match variant {
         0 => { prog.template = "panic_in_desync_job"; let id = prog.add_op(0, Kind::Desync, Disp::None, vec![Step::Touch, Step::Panic]); t0.push(TAct::Op(id)); }
         1 => { prog.template = "panic_in_sync_closure"; let id = prog.add_op(0, Kind::Sync, Disp::None, vec![Step::Touch, Step::Panic]); t0.push(TAct::Op(id)); }
@@ -62,6 +62,24 @@ pub fn gen_c15(rng: &mut Rng, run_seed: u64, miri: bool) -> Program {
         5 => { prog.template = "panic_in_detached_future"; let id = prog.add_op(0, Kind::FutDesync, Disp::Detach, vec![Step::Touch, Step::Yield, Step::Panic]); t0.push(TAct::Op(id)); }
         7 => { prog.template = "panic_in_future_sync_body"; let id = prog.add_op(0, Kind::FutSync, Disp::Await, if rng.chance(1, 2) { vec![Step::Touch, Step::Yield, Step::Panic] } else { vec![Step::Touch, Step::Panic] }); t0.push(TAct::Op(id)); }
         8 => { prog.template = "panic_in_try_sync_closure"; t0.clear(); let id = prog.add_op(0, Kind::TrySync, Disp::None, vec![Step::Touch, Step::Panic]); t0.push(TAct::Op(id)); }
+        10 => {
+            // The processing function of a pipe_in panics on the last item that arrives. The items arrive after the pipe has been
+            // created (pipe_in itself ends with a sync on the target: a caller inside that sync when the operation panics on a pool
+            // thread is the case the statement does not speak about), and nothing touches the input afterwards.
+            prog.template = "panic_in_pipe_in_processing";
+            let n = rng.range(1, 3) as usize;
+            let mut items = vec![];
+            prog.pusher.push(FAct::WaitThread0Done);
+            for k in 0..n {
+                let body = if k + 1 != n { vec![Step::Touch] } else if rng.chance(1, 2) { vec![Step::Touch, Step::Yield, Step::Panic] } else { vec![Step::Touch, Step::Panic] };
+                let id = prog.add_op(0, Kind::PipeItem, Disp::None, body);
+                prog.ops[id].pipe = Some(0);
+                items.push(id);
+                prog.pusher.push(FAct::Item(0));
+            }
+            prog.pipes.push(PipeDef { obj: 0, through: false, depth: 5, items, preloaded: 0, preclosed: false, mpsc: false, register_first: false, keep_waker: false, chain_to: None });
+            t0.push(TAct::PipeCreate(0));
+        }
         9 => { prog.template = "panic_in_after_closure"; let id = prog.add_op(0, Kind::After, Disp::Detach, vec![Step::Touch, Step::Panic]); let gate = prog.new_gate(); prog.ops[id].gate = Some(gate); t0.push(TAct::Op(id)); }
         _ => {
             prog.template = "panic_with_older_future_pending";
